@@ -27,8 +27,8 @@ var c19Files = []string{
 	"BenchmarkC 1 1 ns/op\nk: zz\nBenchmarkC-8 1 2 ns/op\nBenchmarkA 1 5 ns/op\n",
 	// re-added label, same name as file 0
 	"k: a\nBenchmarkA 1 7 ns/op\nk:\nBenchmarkA 1 8 ns/op\nk: c\nBenchmarkA 1 9 ns/op\n",
-	// a quote and a backslash in a value; foreign lines
-	"j: q\"u\\o\nPASS\nBenchmarkD 1 1 ns/op\nok pkg 1s\n",
+	// a quote and a backslash in a value; foreign lines; names with inner dashes, with and without the -N suffix
+	"j: q\"u\\o\nPASS\nBenchmarkD 1 1 ns/op\nok pkg 1s\nBenchmarkE-x/utf-8-4 1 1 ns/op\nBenchmarkE-x/utf-8 1 2 ns/op\n",
 	// lines naming the labels the server adds (empty-valued, and with another value): they are the server's, a
 	// file can neither remove nor change them
 	"k: a\nBenchmarkA 1 1 ns/op\nby:\nupload-part:\nupload: other\nupload-file:\nupload-time:\nBenchmarkA 1 2 ns/op\nk: b\nBenchmarkA 1 3 ns/op\n",
@@ -268,6 +268,9 @@ func c19Terms(ids []string) []term {
 	add("name", ">", "A")
 	add("name", "<", "C")
 	add("sub1", ":", "sub")
+	// names with a dash that is not the -N suffix (only the LAST dash, followed by digits, is one)
+	add("sub1", ":", "utf-8")
+	add("name", ":", "E-x")
 	add("k2", ":", "v")
 	add("gomaxprocs", ":", "4")
 	add("gomaxprocs", ">", "4")
